@@ -104,6 +104,7 @@ func explore(d Driver, tier string, seed int64, deadlineSec int) *Report {
 	self, _ := os.Executable()
 	var mu sync.Mutex
 	var wg sync.WaitGroup
+	famDead := map[string]int{}
 	for i := 0; i < n; i++ {
 		wg.Add(1)
 		go func(shard int) {
@@ -147,11 +148,26 @@ func explore(d Driver, tier string, seed int64, deadlineSec int) *Report {
 					mu.Unlock()
 					return
 				}
-				c, reproduced := confirmCrash(self, d.ID(), tier, idx, dir, shard)
+				// once two cases of a family are confirmed dead, further deaths in the same family are
+				// believed without the (slow: a hang costs its full watchdog time per re-run) isolation
+				var c *Case
+				reproduced := 0
+				if fc := FindCase(d.ID(), tier, idx); fc != nil {
+					mu.Lock()
+					known := famDead[fc.Family]
+					mu.Unlock()
+					if known >= 2 {
+						c, reproduced = fc, 3
+					}
+				}
+				if c == nil {
+					c, reproduced = confirmCrash(self, d.ID(), tier, idx, dir, shard)
+				}
 				mu.Lock()
 				if reproduced >= 3 && c != nil {
+					famDead[c.Family]++
 					rep.Crashes = append(rep.Crashes, fmt.Sprintf("%s idx=%d key=%s", kind, idx, c.Key))
-					rep.Viols = append(rep.Viols, violRec{"viol", idx, c, []Violation{{Class: "worker-" + kind, Detail: fmt.Sprintf("worker process died (%d/5 isolated re-runs reproduce): %s", reproduced, tail)}}, kind})
+					rep.Viols = append(rep.Viols, violRec{"viol", idx, c, []Violation{{Class: "worker-" + kind, Detail: fmt.Sprintf("worker process died (%d isolated re-runs reproduce): %s", reproduced, tail)}}, kind})
 					rep.ByClass["worker-"+kind]++
 					rep.Violating++
 				} else {
@@ -269,6 +285,9 @@ func confirmCrash(self, prop, tier string, idx int64, dir string, shard int) (*C
 		}
 		if err != nil {
 			bad++
+		}
+		if bad >= 3 || (k-bad) >= 3 {
+			break // three reproductions confirm it, three clean runs refute it
 		}
 	}
 	if c == nil {
